@@ -124,6 +124,8 @@ func runC14Cluster(r *Run, stratum string) *Violation {
 	maxInInc := -1 // highest unit committed by the current incarnation
 	committed := make([]bool, nUnits)
 	ncommit := make([]int, nUnits)
+	ncommitInc := make([]int, nUnits) // commits by the current incarnation
+	incNo := 0
 	logPos := 0
 	observe := func() {
 		type blk struct {
@@ -188,6 +190,10 @@ func runC14Cluster(r *Run, stratum string) *Violation {
 				}
 				committed[ui] = true
 				ncommit[ui]++
+				ncommitInc[ui]++
+				if ncommitInc[ui] > 1 {
+					setV("C14.applied_twice", "a unit was applied twice within one run of the link", "unit %d (source offset %d) was committed %d times by incarnation %d (mode %s): within one run nothing makes the link send a unit again", ui, units[ui].endOff, ncommitInc[ui], incNo, mode)
+				}
 				if ui > maxInInc {
 					maxInInc = ui
 				}
@@ -265,6 +271,10 @@ func runC14Cluster(r *Run, stratum string) *Violation {
 	stallSeen := false // a node was stalled while the current incarnation ran
 	start := func() {
 		incarnation++
+		incNo = incarnation
+		for i := range ncommitInc {
+			ncommitInc[i] = 0
+		}
 		maxInInc = -1
 		started = false
 		stallSeen = false
@@ -368,6 +378,7 @@ func runC14Cluster(r *Run, stratum string) *Violation {
 
 	maxCrashes := 1 + g.Choose("ncrashes", 4)
 	crashes, graceful, restarts, resyncs, holeFaults, epochFaults, resyncUnit := 0, 0, 0, 0, 0, 0, -1
+	resets := 0
 	stalled := -1 // index of a node whose requests are not served for now
 	start()
 	for r.BeginStep() {
@@ -582,6 +593,28 @@ func runC14Cluster(r *Run, stratum string) *Violation {
 					r.Logf("FULL RESYNC: root checkpoint moved to %d (end of unit %d)", R, j)
 					start()
 				}})
+			}
+			if resets < 2 {
+				// one connection of one node is reset with requests in flight, a drawn prefix of which still executes;
+				// the cluster stays reachable (unlike conn-loss): whatever the client does next, it does at once
+				var cand []readyConn
+				for _, rc := range l.ready() {
+					if rc.node.PendingCount(rc.ss) > 0 {
+						cand = append(cand, rc)
+					}
+				}
+				if len(cand) > 0 {
+					acts = append(acts, pipeAction{"conn-reset", w, func() {
+						sc := r.Sched()
+						rc := cand[sc.Choose("resetconn", len(cand))]
+						n := rc.node.PendingCount(rc.ss)
+						k := sc.Choose("reset_exec_more", n+1)
+						resets++
+						r.W.Fault("conn_reset")
+						done := rc.node.KillSession(rc.ss, k)
+						r.Logf("RESET %s %s: %d pending, %d still executed", rc.node.Addr, rc.ss.LabelString(), n, done)
+					}})
+				}
 			}
 			if l.prevID == "" && crashes < maxCrashes {
 				// the source fails over and answers +CONTINUE: same offsets, new replication id, the previous one second.
